@@ -343,3 +343,46 @@ func fnValue(v ssa.Value) *ssa.Function {
 	}
 	return nil
 }
+
+// countTimeRels counts time comparisons (After/Before) in fn and its module
+// helpers.
+func countTimeRels(fn *ssa.Function) int {
+	n := 0
+	for _, f := range core.DeepFuncs(fn, core.MaxSummaryDepth) {
+		for _, b := range f.Blocks {
+			for _, in := range b.Instrs {
+				if cc, ok := in.(*ssa.Call); ok {
+					if _, ok := core.TimeRelOf(cc); ok {
+						n++
+					}
+				}
+			}
+		}
+	}
+	return n
+}
+
+// helperResult: when v is result #k of a call to a module helper, returns the
+// values the helper returns for that result (non-zero-constant ones) together
+// with the substitution to evaluate them under.
+func helperResult(v ssa.Value) (vals []ssa.Value, subst map[ssa.Value]ssa.Value, h *ssa.Function) {
+	call, idx := core.CallResult(core.Strip(v))
+	if call == nil || idx < 0 {
+		return nil, nil, nil
+	}
+	h = core.ModuleCallee(call.Common())
+	if h == nil {
+		return nil, nil, nil
+	}
+	for _, ret := range core.Returns(h) {
+		if idx >= len(ret.Results) {
+			continue
+		}
+		rv := core.ReturnOperand(ret, idx)
+		if c, ok := rv.(*ssa.Const); ok && (c.Value == nil || c.IsNil() || c.String() == `"":string`) {
+			continue
+		}
+		vals = append(vals, rv)
+	}
+	return vals, core.FrameSubst(call.Common(), h), h
+}
